@@ -405,7 +405,8 @@ pub fn break_it(doc: &ANode, r: &Rendered, k: usize, rng: &mut Rng, fragment: bo
         }
         15 => {
             let p = content_pos(rng)?;
-            b(insert(t, p, *rng.pick(&["< ", "<", "a<b", "<1>"])), "raw-lt-in-content", false)
+            // only spellings that no following text can complete into markup ("<" + "?x?>" is a PI, "<b" + "/>" an element)
+            b(insert(t, p, *rng.pick(&["< ", "<<", "< a", "<1>"])), "raw-lt-in-content", false)
         }
         16 => {
             let v = avals.get(rng.below(avals.len().max(1)))?;
@@ -413,7 +414,7 @@ pub fn break_it(doc: &ANode, r: &Rendered, k: usize, rng: &mut Rng, fragment: bo
         }
         17 => {
             let p = content_pos(rng)?;
-            b(insert(t, p, *rng.pick(&["& ", "&", "a&b ", "&&"])), "raw-amp-in-content", false)
+            b(insert(t, p, *rng.pick(&["& ", "& a;", "a&b ", "&&"])), "raw-amp-in-content", false)
         }
         18 => {
             let v = avals.get(rng.below(avals.len().max(1)))?;
